@@ -260,6 +260,47 @@ func runWorker(bin string, args []string, gomaxprocs string) (*output, string, e
 	return out, se.String(), nil
 }
 
+// pikeCrash recognises a worker that died from a Go panic / fatal error raised in pike's own code
+// (the innermost frames of the crashing goroutine are pike functions) and returns the stack excerpt.
+func pikeCrash(stderr string) string {
+	i := strings.Index(stderr, "panic: ")
+	if j := strings.Index(stderr, "fatal error: "); j >= 0 && (i < 0 || j < i) {
+		i = j
+	}
+	if i < 0 {
+		return ""
+	}
+	txt := stderr[i:]
+	g := strings.Index(txt, "goroutine ")
+	if g < 0 {
+		return ""
+	}
+	lines := strings.Split(txt[g:], "\n")
+	frames := 0
+	for _, l := range lines[1:] {
+		if strings.HasPrefix(l, "\t") || strings.TrimSpace(l) == "" {
+			continue
+		}
+		if strings.HasPrefix(l, "goroutine ") {
+			break
+		}
+		frames++
+		if strings.HasPrefix(l, "pikemc/") {
+			return "" // raised by the harness itself
+		}
+		if strings.HasPrefix(l, "github.com/vicanso/pike/") {
+			if len(txt) > 1500 {
+				txt = txt[:1500]
+			}
+			return txt
+		}
+		if frames >= 8 {
+			break
+		}
+	}
+	return ""
+}
+
 func sanitize(s string) string {
 	return regexp.MustCompile(`[^A-Za-z0-9_.-]+`).ReplaceAllString(s, "_")
 }
@@ -340,13 +381,20 @@ func check(id, tier string) int {
 	}
 	wg.Wait()
 	shardErr := ""
+	var crash *replay
 	for i, e := range errs {
 		if e != "" {
-			if shardErr == "" {
+			if cr := pikeCrash(e); cr != "" && crash == nil {
+				crash = &replay{Property: id, Scenario: "worker-process", Sig: "process-crash", Msg: cr}
+			} else if shardErr == "" {
 				shardErr = e
 			}
 			outs[i] = &output{Property: id, Tier: tier, Shard: i, NShards: n}
 		}
+	}
+	if crash != nil {
+		// pike code crashed the process (a panic outside any request's recover, or a runtime fatal error)
+		outs[0].Violations = append(outs[0].Violations, crash)
 	}
 	// merge
 	merged := map[string]*scenarioStat{}
@@ -459,7 +507,10 @@ func check(id, tier string) int {
 		}
 		// confirm: re-run the replay 5 times
 		conf := 0
-		for i := 0; i < 5; i++ {
+		if v.Sig == "process-crash" {
+			conf = 1 // the crash itself is the observation; its stack is the artefact
+		}
+		for i := 0; i < 5 && v.Sig != "process-crash"; i++ {
 			o, _, err := runWorker(bin, []string{"-replay", path}, gmp)
 			if err == nil && len(o.Violations) > 0 {
 				conf++
